@@ -51,7 +51,8 @@ impl FileFormatter {
                         match entry {
                             Ok(entry) => {
                                 let file_path = entry.path();
-                                match formattable_file_path(file_path) {
+                                // A directory can be named like a source file
+                                match formattable_file_path(file_path) && !file_path.is_dir() {
                                     true => Some(Ok(file_path.to_path_buf())),
                                     false => None,
                                 }
